@@ -4,6 +4,7 @@ import CdnsVerif.Driver.Enc
 import CdnsVerif.Driver.Ts
 import CdnsVerif.Driver.Dec
 import CdnsVerif.Driver.Cdns
+import CdnsVerif.Driver.Exm
 open CdnsVerif.Driver
 
 def dispatch (line : String) : String :=
@@ -14,6 +15,7 @@ def dispatch (line : String) : String :=
   | "ts" :: rest => TsD.handle rest
   | "dec" :: rest => Dec.handle rest
   | "cdns" :: rest => CdnsD.handle rest
+  | "exm" :: rest => Exm.handle rest
   | _ => "bad-request"
 
 partial def loop (h : IO.FS.Stream) (out : IO.FS.Stream) : IO Unit := do
